@@ -30,11 +30,17 @@ EffKiB(cfg, in) == IF in.entry \in Predecoders \/ cfg.limit = "0" THEN 5120
 Feasible(cfg, in) == (in.size \in {"lim-1", "lim", "lim+1"} => (EffKiB(cfg, in) >= 64 /\ EffKiB(cfg, in) <= 5120))
                      /\ (in.size \in {"x100", "x1000"} => EffKiB(cfg, in) <= 5120)
                      /\ (in.size = "x1000" => EffKiB(cfg, in) < 5120)
-                     /\ (in.pres = "raw" => in.size \in {"natural", "lim-1", "lim", "lim+1"})
+                     /\ (in.pres = "raw" => in.size \in {"natural", "lim-1", "lim", "lim+1", "lim_min"})
                      /\ (in.pres = "lead" => in.size = "natural")
+                     \* the unverified decoders are package functions: no provider, hence no configured limit, reaches them
+                     /\ (in.entry \in Predecoders => cfg.limit = "64k")
+                     \* "lim_min": exactly the limit, but the document is a bare root element (which the unverified decoders
+                     \* accept) and everything else padding, so that the stream reaches DEFLATE's maximum ratio (about
+                     \* 1030:1) on a message that is within the limit
+                     /\ (in.size = "lim_min" => (in.entry \in Predecoders /\ in.pres \in {"raw", "deflate6", "deflate9"} /\ cfg.limit = "64k"))
                      /\ (in.pres \in {"stored", "huffman"} => in.size \in {"natural", "lim", "lim+1"})
 Over(cfg, in) == CASE in.size = "natural" -> EffKiB(cfg, in) < 3
-                   [] in.size \in {"lim-1", "lim"} -> FALSE
+                   [] in.size \in {"lim-1", "lim", "lim_min"} -> FALSE
                    [] OTHER -> TRUE
 
 ModelOut(cfg, in) ==
